@@ -15,7 +15,7 @@ def attr_lists(schema):
 
 
 class Gen(object):
-    def __init__(self, schema, rng, maxobj=7, vals=(0, 1, 2)):
+    def __init__(self, schema, rng, maxobj=7, vals=(0, 1, 2)):      # at most 7 successful creations + one failing constructor = 8 hashed objects
         self.s = schema
         self.rng = rng
         self.al = attr_lists(schema)
@@ -25,6 +25,7 @@ class Gen(object):
         self.maxobj = maxobj
         self.vals = list(vals)
         self.has_foreign = set()
+        self.hub_bias = 0.6
 
     def by_ent(self, e, alive=True):
         return [h for h, x in enumerate(self.objs) if x == e and (not alive or h not in self.dead)]
@@ -38,16 +39,17 @@ class Gen(object):
         if allow_none and r < 0.15: return ['n']
         return ['i', self.rng.choice(self.vals)]
 
-    def ref_arg(self, a, foreign_ok=True):
+    def ref_arg(self, a, foreign_ok=True, me=None):
         r = self.rng.random()
         if r < 0.12: return ['n']
         if foreign_ok and r < 0.16 and a['target'] in self.has_foreign: return ['f']
-        hs = self.by_ent(a['target'], alive=self.rng.random() < 0.93)
+        hs = [h for h in self.by_ent(a['target'], alive=self.rng.random() < 0.93) if h != me]      # no self-links
         if not hs: return ['n']
+        if self.rng.random() < self.hub_bias: return ['o', hs[0]]        # concentrate dependents on the first object of the target entity
         return ['o', self.rng.choice(hs)]
 
-    def set_arg(self, a, k=None):
-        hs = self.by_ent(a['target'], alive=self.rng.random() < 0.95)
+    def set_arg(self, a, k=None, me=None):
+        hs = [h for h in self.by_ent(a['target'], alive=self.rng.random() < 0.95) if h != me]
         self.rng.shuffle(hs)
         n = self.rng.randint(0, min(3, len(hs))) if k is None else min(k, len(hs))
         return sorted(hs[:n])
@@ -81,27 +83,27 @@ class Gen(object):
         if not live: return self.new_op()
         h = self.rng.choice(live)
         e = self.objs[h]; al = self.al[e]; attrs = self.s['entities'][e]['attrs']
-        if r < 0.22 and (al['int'] or al['ref']):
+        if r < 0.18 and (al['int'] or al['ref']):
             j = self.rng.choice(al['int'] + al['ref'])
             a = attrs[j]
-            return ['set', h, j, self.int_arg(a) if a['kind'] == 'int' else self.ref_arg(a)]
-        if r < 0.45 and (al['int'] or al['ref'] or al['set']):
+            return ['set', h, j, self.int_arg(a) if a['kind'] == 'int' else self.ref_arg(a, me=h)]
+        if r < 0.46 and (al['int'] or al['ref'] or al['set']):
             cand = al['int'] + al['ref'] + (al['set'] if self.rng.random() < 0.3 or not (al['int'] or al['ref']) else [])
             self.rng.shuffle(cand)
             n = self.rng.randint(1, min(4, len(cand)))
             pairs = []
             for j in cand[:n]:
                 a = attrs[j]
-                pairs.append([j, self.int_arg(a) if a['kind'] == 'int' else self.ref_arg(a) if a['kind'] == 'ref' else ['os', self.set_arg(a)]])
+                pairs.append([j, self.int_arg(a) if a['kind'] == 'int' else self.ref_arg(a, me=h) if a['kind'] == 'ref' else ['os', self.set_arg(a, me=h)]])
             return ['setm', h, pairs]
-        if r < 0.62:
-            return ['del', h]
+        if r < 0.72:
+            return ['del', h if self.rng.random() < 0.5 else self.rng.choice(live[:max(1, len(live) // 3)])]
         if al['set']:
             j = self.rng.choice(al['set']); a = attrs[j]
             r2 = self.rng.random()
-            if r2 < 0.4: return ['add', h, j, self.set_arg(a, self.rng.randint(1, 2))]
-            if r2 < 0.7: return ['rem', h, j, self.set_arg(a, self.rng.randint(1, 2))]
-            return ['set', h, j, ['os', self.set_arg(a)]]
+            if r2 < 0.4: return ['add', h, j, self.set_arg(a, self.rng.randint(1, 2), me=h)]
+            if r2 < 0.7: return ['rem', h, j, self.set_arg(a, self.rng.randint(1, 2), me=h)]
+            return ['set', h, j, ['os', self.set_arg(a, me=h)]]
         return ['del', h]
 
     def wrap_fault(self, op):
@@ -119,22 +121,34 @@ class Gen(object):
 
 def random_history(schema, rng, length, runner, faults=True, foreign=()):
     """Generate ops one at a time; runner.step(op) -> bool ok executes it (so the generator tracks which creations succeeded);
-    generation stops when runner.dead becomes true (a failed commit ends the session)."""
+    generation stops when runner.dead becomes true (a failed commit ends the session).
+    Phase 1 populates: one object per entity in entity order (dependents point at the objects made before them), sometimes a
+    second round, sometimes a commit.  Phase 2 mixes modifications (many of them doomed), creations, commits and injected faults."""
     run_op = runner.step
     g = Gen(schema, rng)
     g.has_foreign = set(foreign)
     ops = []
-    committed = False
-    for n in range(length):
-        r = rng.random()
-        if len(g.objs) < 3 or (r < 0.3 and len(g.objs) < g.maxobj): op = g.new_op()
-        elif r < 0.38: op = ['commit']
-        else: op = g.mod_op()
-        if faults: op = g.wrap_fault(op)
+    def do(op):
         ok = run_op(op)
         g.note(op, ok)
         ops.append(op)
-        if runner.dead: break
+        return not runner.dead
+    if rng.random() < 0.75:
+        rounds = 1 if rng.random() < 0.6 else 2
+        for rnd in range(rounds):
+            for e in range(len(schema['entities'])):
+                if len(ops) >= length - 2 or len(g.objs) >= g.maxobj: break
+                if rng.random() < (0.9 if rnd == 0 else 0.5):
+                    if not do(g.new_op(e)): return ops
+        if rng.random() < 0.5 and len(ops) < length - 1:
+            if not do(['commit']): return ops
+    while len(ops) < length:
+        r = rng.random()
+        if len(g.objs) < min(3, g.maxobj) or (r < 0.18 and len(g.objs) < g.maxobj): op = g.new_op()
+        elif r < 0.24: op = ['commit']
+        else: op = g.mod_op()
+        if faults: op = g.wrap_fault(op)
+        if not do(op): break
     return ops
 
 
